@@ -147,6 +147,14 @@ func c01Case(w *rt.W, st *c01State, y int64, m, d int, slow bool) {
 					c01Fail(w, "out-formatter-tight-capacity", y, m, d, fmt.Sprintf("DefaultFormatter(%q with %d bytes to spare,%d)", pre, sp, f), string(o3), pre+want)
 				}
 			}
+			// Format is a set of flags: the basic form is selected by its flag, whatever else is set beside it (bits 8..27,
+			// none of which has a meaning of its own)
+			hi := date.Format(1) << uint(8+sp)
+			o4, _ := date.DefaultFormatter(nil, dt, date.FormatBasic|hi)
+			w.Eval(1)
+			if string(o4) != wantB {
+				c01Fail(w, "out-formatter-basic-flag-beside-another-bit", y, m, d, fmt.Sprintf("DefaultFormatter(nil,FormatBasic|%#x)", int(hi)), string(o4), wantB)
+			}
 			switch {
 			case sp >= 10 && sp < len(wantE):
 				w.ClassN("formatter-capacity-at-least-ten-but-short-of-the-text", 1)
@@ -457,6 +465,7 @@ func runC01(c *rt.Ctx) {
 		"5-9 digit years are enumerated from a boundary grid plus seeded years under MaxInputLength in {0,11..15}. " +
 		"distinct_nontrivial counts distinct (date, limit) cases, each visited once by construction, excluding the dates the unit suite touches")
 	c.Assume("Go runtime, fmt, encoding/json, encoding/xml are trusted; expected texts and calendar come from ref/civil.go (independent of package time and of the code under test)")
+	c.Assume("date.Format is a set of flags (as its documentation says): the basic form is selected by the FormatBasic bit also when bits 8..27, which have no meaning of their own, are set beside it")
 
 	// specification vectors / oracle self-test
 	c.SelfTest("ordinal-1970-01-01=0", ref.Ordinal(1970, 1, 1) == 0)
